@@ -33,6 +33,7 @@ def B1_kind_blocks(repo, clause, funcs=None):
         buckets = sib.collect_buckets(fn.node.body, notes)
         ks = [k for k in ks]
         counts = {k: len(buckets[k]) for k in ks}
+        buckets = sib.align(buckets, ks)
         n = min(counts.values())
         if n < need:
             raise AnalysisError("B1: %s has only %d per-kind pieces (floor %d): %s" % (q, n, need, counts))
@@ -154,6 +155,7 @@ def B3_assign_pipeline(repo, clause):
     """assign_bond_types / assign_angle_types / assign_dihedral_types share one pipeline."""
     obs = []
     spec = {"bond": 2, "angle": 3, "dihedral": 4}
+    names = {}
     for k, ar in spec.items():
         fn = repo.fn("assign_%s_types" % k)
         attr = k + "s"
@@ -173,7 +175,8 @@ def B3_assign_pipeline(repo, clause):
                         notnone = True
             tgt = fn.stmt_of(dels[0])
             stores = isinstance(tgt, ast.Assign) and isinstance(tgt.targets[0], ast.Attribute) and tgt.targets[0].attr == attr
-            src = dels[0].args and isinstance(dels[0].args[0], ast.Attribute) and dels[0].args[0].attr == attr
+            a0e = expand(fn, dels[0].args[0]) if dels[0].args else None
+            src = isinstance(a0e, ast.Attribute) and a0e.attr == attr
             ok = thr == ar and notnone and stores and src
             detail = "exclusion only when an exclusion set with >= %s atoms is given (arity %d), applied to atoms.%s" % (thr, ar, attr)
         obs.append(Ob("B3", clause, fn, dels[0] if dels else fn.node, ok, detail, slot="%s:exclusion" % k))
@@ -230,6 +233,7 @@ def B3_assign_pipeline(repo, clause):
         obs.append(Ob("B3", clause, fn, par[0] if par else fn.node, ok, "parameters are computed once per unique key, in the order of the unique list", slot="%s:params" % k))
         if par:
             pname = par[0].targets[0].id
+            names[k] = (kname, uname, pname)
             pc = [c for c in ast.walk(par[0].value) if isinstance(c, ast.Call) and call_name(c) == "%s_params" % k][0]
             rules_fwd = kwarg(pc, "bond_order_rules")
             obs.append(Ob("B3", clause, fn, pc, isinstance(rules_fwd, ast.Name) and rules_fwd.id == "bond_order_rules",
@@ -265,40 +269,71 @@ def B3_assign_pipeline(repo, clause):
     loops = [n for n in fn.own_nodes() if isinstance(n, ast.For) and isinstance(n.iter, ast.Call) and call_name(n.iter) == "reversed"]
     ok = False
     detail = "removal loop (reversed index order) not found"
-    if len(loops) == 1:
+    if len(loops) == 1 and "dihedral" in names and isinstance(loops[0].target, ast.Name):
+        from .common import eq_const
+        K, U, Pn = names["dihedral"]
         lp = loops[0]
-        txt = ast.unparse(lp)
-        filt_terms = "atoms.dihedrals = [" in txt and "!=" in txt
-        filt_keys = re.search(r"dihedral_types = \[d for d in dihedral_types if d != ", txt) is not None
-        del_unique = "del unique_dihedral_types[i]" in txt or "del (unique_dihedral_types[i])" in txt
-        del_params = "del params[i]" in txt or "del (params[i])" in txt
-        test_none = any(isinstance(c, ast.Compare) and isinstance(c.ops[0], ast.Is) and const_value(c.comparators[0]) is None for c in ast.walk(lp))
-        # use-before-kill: d_to_del is read from the unique list before the unique entry is deleted
-        ok = filt_terms and filt_keys and del_unique and del_params and test_none
-        detail = "undefined torsions are removed consistently: terms=%s, per-term keys=%s, unique key=%s, parameter row=%s, test `is None`=%s" % (
-            filt_terms, filt_keys, del_unique, del_params, test_none)
-        if ok:
-            stmts = [s for s in ast.walk(lp) if isinstance(s, ast.stmt)]
-            order = {"read": None, "terms": None, "keys": None, "del_unique": None}
-            for s in stmts:
-                t = ast.unparse(s)
-                if isinstance(s, ast.Assign) and "unique_dihedral_types[i]" in t and order["read"] is None:
-                    order["read"] = s.lineno
-                if isinstance(s, ast.Assign) and t.startswith("atoms.dihedrals = ["):
-                    order["terms"] = s.lineno
-                if isinstance(s, ast.Assign) and t.startswith("dihedral_types = ["):
-                    order["keys"] = s.lineno
-                if isinstance(s, ast.Delete) and "unique_dihedral_types" in t:
-                    order["del_unique"] = s.lineno
-            ok = None not in order.values() and order["read"] < order["terms"] < order["keys"] and order["read"] < order["del_unique"]
-            detail += "; order: key read < term filter < per-term key filter, key read < unique delete = %s" % ok
+        I = lp.target.id
+        rng = lp.iter.args[0]
+        iter_ok = isinstance(rng, ast.Call) and call_name(rng) == "range" and len(rng.args) == 1 and ast.unparse(rng.args[0]) == "len(%s)" % Pn
+        body = [s2 for s2 in ast.walk(lp) if isinstance(s2, ast.stmt) and s2 is not lp]
+        tests = [c for c in ast.walk(lp) if isinstance(c, ast.Compare) and isinstance(c.ops[0], ast.Is) and const_value(c.comparators[0]) is None
+                 and ast.unparse(c.left).startswith("%s[%s]" % (Pn, I))]
+        read = [s2 for s2 in body if isinstance(s2, ast.Assign) and isinstance(s2.targets[0], ast.Name) and ast.unparse(s2.value) == "%s[%s]" % (U, I)]
+        Dn = read[0].targets[0].id if read else None
+
+        def ne_D(c, other_pred):
+            if isinstance(c, ast.Compare) and len(c.ops) == 1 and isinstance(c.ops[0], ast.NotEq):
+                sides = [c.left, c.comparators[0]]
+                return any(isinstance(x, ast.Name) and x.id == Dn for x in sides) and any(other_pred(x) for x in sides)
+            return False
+        terms = keys = None
+        for s2 in body:
+            if isinstance(s2, ast.Assign) and isinstance(s2.value, ast.ListComp) and len(s2.value.generators) == 1 and len(s2.value.generators[0].ifs) == 1:
+                g = s2.value.generators[0]
+                t = s2.targets[0]
+                if isinstance(t, ast.Attribute) and t.attr == "dihedrals" and isinstance(g.iter, ast.Call) and call_name(g.iter) == "enumerate" \
+                        and ast.unparse(g.iter.args[0]) == ast.unparse(t) and isinstance(g.target, ast.Tuple):
+                    j, d = g.target.elts[0].id, g.target.elts[1].id
+                    if ne_D(g.ifs[0], lambda x: ast.unparse(x) == "%s[%s]" % (K, j)) and ast.unparse(s2.value.elt) == d:
+                        terms = s2
+                elif isinstance(t, ast.Name) and t.id == K and isinstance(g.iter, ast.Name) and g.iter.id == K and isinstance(g.target, ast.Name):
+                    if ne_D(g.ifs[0], lambda x: isinstance(x, ast.Name) and x.id == g.target.id) and ast.unparse(s2.value.elt) == g.target.id:
+                        keys = s2
+        dels = {}
+        for s2 in body:
+            if isinstance(s2, ast.Delete):
+                for t in s2.targets:
+                    for x in (t.elts if isinstance(t, ast.Tuple) else [t]):
+                        dels[ast.unparse(x)] = s2
+        del_u = dels.get("%s[%s]" % (U, I))
+        del_p = dels.get("%s[%s]" % (Pn, I))
+        all_found = iter_ok and bool(tests) and bool(read) and terms is not None and keys is not None and del_u is not None and del_p is not None
+        detail = "undefined torsions are removed consistently: index loop over the parameter list=%s, test `is None`=%s, terms filtered=%s, per-term keys filtered=%s, unique key deleted=%s, parameter row deleted=%s" % (
+            iter_ok, bool(tests), terms is not None, keys is not None, del_u is not None, del_p is not None)
+        ok = all_found
+        if all_found:
+            pos = {id(s2): i for i, s2 in enumerate(sorted(body, key=lambda x: (x.lineno, x.col_offset)))}
+            order_ok = pos[id(read[0])] < pos[id(terms)] < pos[id(keys)] and pos[id(read[0])] < pos[id(del_u)]
+            guarded = all(any(pol and any(x is tests[0] for x in ast.walk(t)) for t, pol, kk in norm_guards(fn, s2)) for s2 in (terms, keys, del_u, del_p))
+            ok = order_ok and guarded
+            detail += "; key is read before the unique entry is deleted and terms are filtered (by the old per-term keys) before the keys themselves=%s; all under the None test=%s" % (order_ok, guarded)
     obs.append(Ob("B3", clause, fn, loops[0] if loops else fn.node, ok, detail, slot="dihedral:none-removal"))
     # delete_if_all_in_set: removed iff ALL atoms are in the set
     d = repo.fn("delete_if_all_in_set")
     tests = [n for n in d.own_nodes() if isinstance(n, ast.Compare)]
-    ok = len(tests) == 1 and nf(tests[0]) == nf(ast.parse("len(set(tup) - s) == 0", mode="eval").body)
-    if not ok and len(tests) == 1:
-        ok = "issubset" in ast.unparse(tests[0])
+    ok = False
+    if len(tests) == 1:
+        from .common import eq_const
+        e = eq_const(tests[0])
+        lp = [x for x in d.own_nodes() if isinstance(x, ast.For)]
+        tupname = lp[0].target.elts[1].id if lp and isinstance(lp[0].target, ast.Tuple) else None
+        if e is not None and e[1] == 0 and e[2] and isinstance(e[0], ast.Call) and call_name(e[0]) == "len" and isinstance(e[0].args[0], ast.BinOp) \
+                and isinstance(e[0].args[0].op, ast.Sub):
+            l, r = e[0].args[0].left, e[0].args[0].right
+            ok = isinstance(l, ast.Call) and call_name(l) == "set" and ast.unparse(l.args[0]) == tupname and isinstance(r, ast.Name) and r.id == d.params[1]
+        if not ok:
+            ok = "issubset" in ast.unparse(tests[0])
     obs.append(Ob("B3", clause, d, tests[0] if tests else d.node, ok, "a term is excluded iff all of its atoms are in the exclusion set (set(term) - excluded is empty)", slot="exclusion-quantifier"))
     return obs
 
